@@ -1,9 +1,12 @@
 #!/bin/bash
 # usage: tools/run_seed.sh <patch.diff> <prop> [<prop>...]  — apply a seeded change to /repo, run quick checks, undo.
+# Evidence files are saved before and restored after: committed evidence must always come from the unchanged tree.
 patch=$1; shift
 cd /repo || exit 2
 if [ -n "$(git status --porcelain)" ]; then echo "REFUSING: /repo has uncommitted changes (commit them first: git checkout would destroy them)"; exit 4; fi
 if ! git apply --check "$patch" 2>/dev/null; then echo "PATCH DOES NOT APPLY to current /repo: $patch"; git apply --check "$patch" 2>&1 | head -3; exit 3; fi
+sav=$(mktemp -d /tmp/evsave.XXXXXX); cp -a /verif/evidence/. "$sav"/ 2>/dev/null
 git apply "$patch"
 for p in "$@"; do (cd /verif && ./check $p quick 2>&1 | grep -E "^VIOLATION|obligation |KNOWN|ENGINE|quick:" | cut -c1-260 | head -8); done
 git checkout -- . ; git status --short | head -3
+rm -rf /verif/evidence; mkdir -p /verif/evidence; cp -a "$sav"/. /verif/evidence/; rm -rf "$sav"
